@@ -430,3 +430,9 @@ H("c11_bc_bothhandles_o1", L, "C11", ["C11", "C12", "C03", "C06"], "quick",
 H("c16_protocol_d2_o0", M, "C16", ["C16", "C17"], "thorough",
   "REAL MemoryManager + ReadCursor, nesting depth 2: the writer's scan is preempted everywhere by the consumer's add_stream / remove_reader, and those are themselves preempted everywhere (e.g. between two steps of MemoryManager::free) by a third handle that retires one more object and so starts a reclamation cycle",
   "19 pre-loaded retirements, 2 tokens, depth 2, budget 3, up to 2 ops per site", rules=MEMRULES, fp_restrict=FP, builtin_oracle=True, unwind=6, mem_gb=24, timeout=3000)
+for n, w in (("c09_bc_a2w", "broadcast N=1, skeleton 2w (send recv0 send add_stream recv1 recv0 send recv1 unsubscribe send): the stream is added after the ring wrapped"),
+             ("c09_mp_a1w", "mpmc N=1, skeleton 1w (send recv0 send clone recv1 recv0 send recv1 drop1 recv0): the receiver is cloned after the ring wrapped"),
+             ("c09_bc_a5w", "broadcast N=2, skeleton 5w (send recv0 send add_stream recv1 recv0 drop_rx0 send drop_rx1 send)")):
+    H(n, S, "C09", ["C09", "C10", "C11", "C13"], "quick", "10-call skeleton, every traffic call optional by solver choice, structural calls always, vs the reference model: " + w,
+      "10 steps, sequential", rules=SEQRULES)
+    _opt(n, "the history saw Disconnected")
